@@ -5,7 +5,7 @@
 //! forwarded untouched through raw system calls. The log is what crash prefixes are cut from.
 
 use std::ffi::CStr;
-use std::sync::atomic::{AtomicBool, Ordering};
+use std::sync::atomic::{AtomicBool, AtomicI64, AtomicUsize, Ordering};
 
 #[derive(Clone, Debug, PartialEq)]
 pub enum FsOp {
@@ -16,6 +16,11 @@ pub enum FsOp {
 
 static RECORDING: AtomicBool = AtomicBool::new(false);
 static BUSY: AtomicBool = AtomicBool::new(false);
+/// kill mode (validation of the crash synthesis): the process really dies at operation KILL_AT of the
+/// tracked operations, after KILL_EXTRA bytes of it if it is a write. -1 = off.
+static KILL_AT: AtomicI64 = AtomicI64::new(-1);
+static KILL_EXTRA: AtomicUsize = AtomicUsize::new(0);
+static OPCOUNT: AtomicUsize = AtomicUsize::new(0);
 static mut PREFIX: Option<String> = None;
 static mut LOG: Option<Vec<FsOp>> = None;
 
@@ -24,7 +29,23 @@ pub fn start(prefix: &str) {
         PREFIX = Some(prefix.to_string());
         LOG = Some(Vec::new());
     }
+    OPCOUNT.store(0, Ordering::SeqCst);
     RECORDING.store(true, Ordering::SeqCst);
+}
+
+/// the process will `_exit` at tracked operation `nops` (before it; for a write: after `extra` bytes of it)
+pub fn set_kill(nops: usize, extra: usize) {
+    KILL_EXTRA.store(extra, Ordering::SeqCst);
+    KILL_AT.store(nops as i64, Ordering::SeqCst);
+}
+
+fn die_here() -> bool {
+    KILL_AT.load(Ordering::SeqCst) == OPCOUNT.load(Ordering::SeqCst) as i64
+}
+
+unsafe fn die() -> ! {
+    libc::syscall(libc::SYS_exit_group, 0);
+    loop {}
 }
 
 pub fn stop() -> Vec<FsOp> {
@@ -36,6 +57,7 @@ pub fn stop() -> Vec<FsOp> {
 }
 
 fn record(op: FsOp) {
+    OPCOUNT.fetch_add(1, Ordering::SeqCst);
     // single simulated caller at a time; BUSY guards against re-entrance from allocation paths
     if BUSY.swap(true, Ordering::SeqCst) {
         return;
@@ -64,6 +86,15 @@ fn fd_path(fd: libc::c_int) -> Option<String> {
 
 #[no_mangle]
 pub unsafe extern "C" fn write(fd: libc::c_int, buf: *const libc::c_void, count: libc::size_t) -> libc::ssize_t {
+    if fd > 2 && count > 0 && RECORDING.load(Ordering::SeqCst) && !BUSY.load(Ordering::SeqCst) && die_here() {
+        if fd_path(fd).map(|p| tracked(&p)).unwrap_or(false) {
+            let n = KILL_EXTRA.load(Ordering::SeqCst).min(count);
+            if n > 0 {
+                libc::syscall(libc::SYS_write, fd, buf, n);
+            }
+            die();
+        }
+    }
     let r = libc::syscall(libc::SYS_write, fd, buf, count) as libc::ssize_t;
     if r > 0 && fd > 2 && RECORDING.load(Ordering::SeqCst) && !BUSY.load(Ordering::SeqCst) {
         if let Some(p) = fd_path(fd) {
@@ -77,6 +108,11 @@ pub unsafe extern "C" fn write(fd: libc::c_int, buf: *const libc::c_void, count:
 }
 
 unsafe fn do_open(path: *const libc::c_char, flags: libc::c_int, mode: libc::mode_t) -> libc::c_int {
+    if (flags & libc::O_CREAT) != 0 && RECORDING.load(Ordering::SeqCst) && !BUSY.load(Ordering::SeqCst) && die_here() {
+        if CStr::from_ptr(path).to_str().map(tracked).unwrap_or(false) {
+            die();
+        }
+    }
     let r = libc::syscall(libc::SYS_openat, libc::AT_FDCWD, path, flags | libc::O_LARGEFILE, mode as libc::c_uint) as libc::c_int;
     if r >= 0 && (flags & libc::O_CREAT) != 0 && RECORDING.load(Ordering::SeqCst) && !BUSY.load(Ordering::SeqCst) {
         if let Ok(p) = CStr::from_ptr(path).to_str() {
@@ -100,6 +136,12 @@ pub unsafe extern "C" fn open(path: *const libc::c_char, flags: libc::c_int, mod
 
 #[no_mangle]
 pub unsafe extern "C" fn unlink(path: *const libc::c_char) -> libc::c_int {
+    if RECORDING.load(Ordering::SeqCst) && !BUSY.load(Ordering::SeqCst) && die_here() {
+        // only an unlink that would succeed is an operation of the log
+        if CStr::from_ptr(path).to_str().map(tracked).unwrap_or(false) && libc::syscall(libc::SYS_faccessat, libc::AT_FDCWD, path, libc::F_OK, 0) == 0 {
+            die();
+        }
+    }
     let r = libc::syscall(libc::SYS_unlinkat, libc::AT_FDCWD, path, 0) as libc::c_int;
     if r == 0 && RECORDING.load(Ordering::SeqCst) && !BUSY.load(Ordering::SeqCst) {
         if let Ok(p) = CStr::from_ptr(path).to_str() {
